@@ -290,6 +290,7 @@ def judge(env, world, case, viol, classes) -> None:
     auth_streak = False
     slot: list = []         # candidate instants of the single retry timer (more than one only in an auth streak)
     slot_mandatory = False
+    expired_slot: list = []  # the last slot that passed while an attempt was in flight (its cancel report may trail by the error callback's duration)
     slot_set_seq = -1
     justified_now: list = []   # (t, why, mandatory)
     cb_seq: list = []
@@ -337,6 +338,7 @@ def judge(env, world, case, viol, classes) -> None:
                     viol.append(V("c18:attempt-missing:retry-timer", f"retry was due at t={st_:.6f} (n={n}) while idle and started, none began by t={t:.6f}"))
                 slot = []
             elif slot and max(slot) < t - EPS:
+                expired_slot = list(slot)
                 slot = []
             check_due(t, e["seq"])
             if must_listen_since is not None and t > must_listen_since + EPS and phase == "idle" and not stopped and named:
@@ -370,10 +372,15 @@ def judge(env, world, case, viol, classes) -> None:
                 classes.add("stop_in_flight")
             stopped = True
             slot = []
+            expired_slot = []
             pending_mandatory = []
             justified_now = []
         elif k == "rl_stop_returned":
             stop_returned_seq = e["seq"]
+            # whatever the attempt cancelled by this stop() armed on its way out is gone once stop() has returned
+            if stopped:
+                slot = []
+                pending_mandatory = []
             if phase == "attempting":
                 # stop() returned while the attempt had produced no verdict: it was cancelled by the stop
                 phase = "idle"
@@ -431,7 +438,11 @@ def judge(env, world, case, viol, classes) -> None:
                 # a restart at this very instant is justified; whether the cancelled attempt counts as a
                 # 'failed attempt' for the back-off is not specified -> both counts are accepted from here on
                 classes.add("restart_at_tcp_stage")
-                if not stopped:
+                err_delay = ((case.get("cb_delay") or {}).get("error") or 0) / 64
+                if not stopped and (any(x - EPS <= t <= x + err_delay + EPS for x in slot + expired_slot)
+                                    or any(jt - EPS <= t <= jt + err_delay + EPS for (jt, _, _) in justified_now)):
+                    # only a retry timer that is actually due explains it: a timer left over from before the last
+                    # stop() is not a reason to cut a healthy attempt short
                     justified_now.append((t, "retry timer fired while the attempt was still connecting (restart)", False))
                 n += 1
             else:
@@ -644,7 +655,19 @@ def _local_end_cases():
             yield {"named": True, "addr": "ip", "K": 4.0, "plan": [["ok"]] + after, "events": [{"t": 0, "do": "start"}, {"t": 128, "do": "end", "how": how}], "horizon": 60}
 
 
+def _stop_in_flight_restart_cases():
+    """stop() while an attempt is in flight, start() again shortly after, the new attempt still at the TCP stage when
+    whatever the stopped attempt left behind would be due."""
+    for first in (["tcp_hang"], ["slow_ok", 64 * 20], ["silent"]):
+        for t_stop in (32, 64, 100):
+            for gap in (16, 32, 64):
+                for how in ("stop", "stop_cb"):
+                    yield {"named": True, "addr": "ip", "K": 4.0, "plan": [first, ["tcp_hang"], ["ok"]],
+                           "events": [{"t": 0, "do": "start"}, {"t": t_stop, "do": how}, {"t": t_stop + gap, "do": "start"}], "horizon": 90}
+
+
 def enumerated(tier):
+    yield from _stop_in_flight_restart_cases()
     yield from _local_end_cases()
     yield from _derived_name_cases()
     yield from _mdns_addr_cases()
